@@ -5,7 +5,7 @@
 From Coq Require Import Reals List Lra.
 From AhrsLib Require Import Base.
 From AhrsGen Require Import C13gen_R.
-From AhrsProps Require Import C13_lib C13_mm C13_rest C13_drv.
+From AhrsProps Require Import C13_lib C13_mm C13_mah C13_rest C13_drv C13_comp.
 Import ListNotations.
 Open Scope R_scope.
 
@@ -110,13 +110,13 @@ Theorem C13_dropout_step_safe_fkf_partial : forall h0 h1 h2 g0 g1 g2 a0 a1 a2 n0
 Proof. exact fkf_a0. Qed.
 Print Assumptions C13_dropout_step_safe_fkf_partial.
 
-(* Complementary driver on two rows with w0 given, acc[1] = 0 (needs fix C13-complementary-dropout): the angles are the
+(* Complementary(…, w0=…, Dt=0.02) driver (Dt given, frequency at its default 100) on two rows, acc[1] = 0 (needs fix C13-complementary-dropout): the angles are the
    gyro-integrated previous angles (no blend with a 0/0 tilt), the quaternion is unit.
    MARG architecture: all three angles, yaw included, are the gyro-integrated previous ones (or ValueError for a null mag).
    PARTIAL: unit norm of the MARG quaternion built from the angles is covered by correspondence and search only. *)
 Theorem C13_dropout_step_safe_complementary_partial : forall r0 p0 y0 h0 h1 h2 g0 g1 g2 a0 a1 a2 n0 n1 n2 m0 m1 m2,
-  comp_leaf (r0 + g0 * (1/100)) (p0 + g1 * (1/100)) (C13_comp_imu_a0_R r0 p0 y0 h0 h1 h2 g0 g1 g2 a0 a1 a2) /\
-  comp3_leaf (r0 + g0 * (1/100)) (p0 + g1 * (1/100)) (y0 + g2 * (1/100))
+  comp_leaf (r0 + g0 * (1/50)) (p0 + g1 * (1/50)) (C13_comp_imu_a0_R r0 p0 y0 h0 h1 h2 g0 g1 g2 a0 a1 a2) /\
+  comp3_leaf (r0 + g0 * (1/50)) (p0 + g1 * (1/50)) (y0 + g2 * (1/50))
     (C13_comp_marg_a0_R r0 p0 y0 h0 h1 h2 g0 g1 g2 a0 a1 a2 n0 n1 n2 m0 m1 m2).
 Proof. intros. split; [exact (comp_imu_a0 _ _ _ _ _ _ _ _ _ _ _ _)|exact (comp_marg_a0 _ _ _ _ _ _ _ _ _ _ _ _ _ _ _ _ _ _)]. Qed.
 Print Assumptions C13_dropout_step_safe_complementary_partial.
